@@ -131,10 +131,40 @@ type Doc struct {
 
 // Rec is one log record of a case.
 type Rec struct {
-	TS     int64             `json:"ts"`
-	Line   gen.BS            `json:"line"`
-	Labels map[string]string `json:"labels,omitempty"`
-	Doc    *Doc              `json:"doc,omitempty"`
+	TS     int64    `json:"ts"`
+	Line   gen.BS   `json:"line"`
+	Labels LabelMap `json:"labels,omitempty"`
+	Doc    *Doc     `json:"doc,omitempty"`
+}
+
+// LabelMap is a label set whose values survive a JSON round trip even when they are not valid
+// UTF-8 (a replay file has to hold exactly the bytes that failed).
+type LabelMap map[string]string
+
+// MarshalJSON implements json.Marshaler.
+func (m LabelMap) MarshalJSON() ([]byte, error) {
+	out := make(map[string]gen.BS, len(m))
+	for k, v := range m {
+		out[k] = gen.BS(v)
+	}
+	return json.Marshal(out)
+}
+
+// UnmarshalJSON implements json.Unmarshaler.
+func (m *LabelMap) UnmarshalJSON(data []byte) error {
+	var in map[string]gen.BS
+	if err := json.Unmarshal(data, &in); err != nil {
+		return err
+	}
+	if in == nil {
+		*m = nil
+		return nil
+	}
+	*m = make(LabelMap, len(in))
+	for k, v := range in {
+		(*m)[k] = string(v)
+	}
+	return nil
 }
 
 // BaseLabels derives the label set of a record as the storage contract defines it: its
